@@ -455,6 +455,7 @@ func (s *reportSim) Reset() {
 
 	for _, warrior := range s.warriors {
 		warrior.state = WarriorAdded
+		warrior.pq = nil
 	}
 	s.mem = make([]Instruction, s.m)
 	s.cycleCount = 0
